@@ -91,6 +91,7 @@ func (con *Connection) DecryptedRead(b []byte) (int, error) {
 // Write writes bytes to the connection.
 // The written bytes are encrypted when possible.
 func (con *Connection) Write(b []byte) (int, error) {
+	verifYield("write", con, b)
 	if con.getEncrypter() != nil {
 		return con.EncryptedWrite(b)
 	}
@@ -100,6 +101,7 @@ func (con *Connection) Write(b []byte) (int, error) {
 
 // Read reads bytes from the connection. The read bytes are decrypted when possible.
 func (con *Connection) Read(b []byte) (int, error) {
+	verifYield("read", con, b)
 	if con.getDecrypter() != nil {
 		return con.DecryptedRead(b)
 	}
@@ -109,6 +111,7 @@ func (con *Connection) Read(b []byte) (int, error) {
 
 // Close closes the connection and deletes the related session from the context.
 func (con *Connection) Close() error {
+	verifYield("close", con, nil)
 	log.Debug.Println("Close connection and remove session")
 
 	// Remove session from the context
